@@ -382,6 +382,7 @@ def run(ctx):
             for kind in ENUM_KINDS:
                 check_wrapper(ctx, m, g, kind)
     check_r1(ctx)
+    C.corpus_adequacy(ctx, enforce=False)
     ctx.floor("C02.arm", 150)
     ctx.floor("C02.struct", 30)
     ctx.floor("C02.wrapper-arm", 100)
